@@ -132,6 +132,8 @@ func init() {
 		Fixtures:    []string{"a3", "u"},
 		Run:         runC07,
 		SelfTest: []Mutation{
+			{Name: "FirstRayCollision stops one step before RayCollisions", File: "model3d/collisions.go",
+				Old: "\tstartInside := s.Solid.Contains(r.Origin)\n\tfor t := minFrac; t <= maxFrac+fracStep; t += fracStep {", New: "\tstartInside := s.Solid.Contains(r.Origin)\n\tfor t := minFrac; t <= maxFrac; t += fracStep {", Rule: "SIBLOOP", Expect: "SolidCollider"},
 			{Name: "InterpNormalTriangle.RayCollisions reports hits behind the origin", File: "model3d/primitives.go",
 				Old: "\tinfo, scale := i.Triangle.rayCollision(r)\n\tif info == nil || scale < 0 {", New: "\tinfo, scale := i.Triangle.rayCollision(r)\n\tif info == nil {", Rule: "SIGNED", Expect: "InterpNormalTriangle"},
 			{Name: "Segment.FirstRayCollision accepts negative parameters", File: "model2d/primitives.go",
@@ -188,6 +190,8 @@ func runC07(c *Ctx) {
 	c.floor("A3.NILDEP", 15)
 	c.runSigned("SIGNED", upkgs)
 	c.floor("SIGNED", 8)
+	c.runSibLoop("SIBLOOP", c.libPkgs()[:2], [2]string{"RayCollisions", "FirstRayCollision"})
+	c.floor("SIBLOOP", 1)
 }
 
 // allRepoPkgs: every loaded root package of the repository plus the fixtures.
